@@ -322,7 +322,7 @@ var routerProps = map[string]string{
 func cmdRouter(prop string, args []string) {
 	o := baseOpts(prop, args)
 	start := time.Now()
-	nProj := 12
+	nProj := 16
 	if o.Tier == "thorough" {
 		nProj = 60
 	}
@@ -359,6 +359,7 @@ func cmdRouter(prop string, args []string) {
 	}
 	otherProps := map[string]int{}
 	seenSig := map[string]bool{}
+	var nonReplayable []string
 	for _, bo := range outs {
 		mergeStats(stats, bo.Stats)
 		for _, v := range bo.Violations {
@@ -373,7 +374,8 @@ func cmdRouter(prop string, args []string) {
 			bp := byTag[v.Project]
 			// replay before report: the same group, same schedule seed, in a fresh process
 			vb, _ := json.Marshal(v)
-			if v.Class != "registration-panic" && !strings.HasPrefix(v.Signature, prop+"|spec|") {
+			static := map[string]bool{"registration-panic": true, "hidden-documented": true, "served-not-documented": true, "operation-id": true, "documented-not-annotated": true}
+			if !static[v.Class] {
 				rb := rs.runBatch(o.Seed, o.Tier, []batchProject{bp}, vb)
 				found := false
 				for _, rv := range rb.Violations {
@@ -382,7 +384,9 @@ func cmdRouter(prop string, args []string) {
 					}
 				}
 				if !found {
-					harnessFail("non-replayable: %s did not reproduce in a fresh process", v.Signature)
+					// never reported as a violation (R7); a harness failure unless replayable violations exist too
+					nonReplayable = append(nonReplayable, v.Signature)
+					continue
 				}
 			}
 			rep.Report(v.Signature, v.Class, v.Message, map[string]any{
@@ -390,6 +394,12 @@ func cmdRouter(prop string, args []string) {
 				"batch_project": bp, "violation": v,
 			})
 		}
+	}
+	if len(nonReplayable) > 0 {
+		if rep.Count() == 0 {
+			harnessFail("non-replayable: %v did not reproduce in a fresh process", nonReplayable)
+		}
+		fmt.Fprintf(os.Stderr, "warning: %d candidate violation(s) did not reproduce in a fresh process and are NOT reported: %v\n", len(nonReplayable), nonReplayable)
 	}
 	wall := time.Since(start).Seconds()
 	reqs := num(stats, "requests")
@@ -416,6 +426,7 @@ func cmdRouter(prop string, args []string) {
 		"simulated_time":      "no clock in this subsystem (no timers; fiber's test timeout disabled)",
 		"violations_of_other_router_properties_seen": otherProps,
 		"known_findings_matched": rep.KnownMatched(),
+		"non_replayable_candidates": len(nonReplayable),
 		"components": map[string]any{
 			"real": []string{"gleece CLI built from /repo's working tree (unmodified)", "the generated routes files for gin, echo, mux, chi, fiber", "gin, echo, gorilla/mux, chi, fiber/fasthttp", "go-playground/validator", "encoding/json", "the spec file gleece wrote (client reads it)"},
 			"stub": []string{"transport (httptest recorder / fiber app.Test in-memory conn)", "authorization callback", "controller methods", "middlewares and custom validator", "clients and request body stream", "goroutine scheduling at yield points (one token, seeded)"},
